@@ -134,6 +134,9 @@ class Executor(Exec):
         fv = self.eval(f, st)
         args, kwargs = self.eval_args(node, st)
         self.call_node = node
+        # where the positional arguments live (a helper executed in place must see a list / dict / file argument as
+        # the caller's OBJECT, not as a copy)
+        self.call_arg_locs = [self.try_loc(a, st) if isinstance(a, (ast.Name, ast.Attribute)) else None for a in node.args]
         if isinstance(fv, VBoundMethod):
             recv = fv.recv
             if isinstance(recv, (VRef, VStruct)):
@@ -438,7 +441,17 @@ class Executor(Exec):
         env = self.bind_params(st, fi, None, recv, args, kwargs)
         self.inlined.add(fi.qualname + " (helper without contract, body executed in place)")
         saved = (st.env, st.aliasof, self.module, self.defcls)
-        st.env, st.aliasof = dict(env), {}
+        arg_locs = list(getattr(self, "call_arg_locs", []) or [])
+        pnames = [x.arg for x in fi.node.args.args]
+        if fi.kind in ("method", "classmethod") and fi.cls is not None:
+            pnames = pnames[1:]
+        from .values import VFilePtr
+        new_alias = {}
+        for pn, loc in zip(pnames, arg_locs):
+            if loc is not None and loc[0] in ("vfield", "elem") and isinstance(env.get(pn), (VSeq, VMap, VFilePtr)) \
+                    and not (isinstance(env.get(pn), VSeq) and env[pn].kind == "bytes"):
+                new_alias[pn] = loc
+        st.env, st.aliasof = dict(env), new_alias
         self.module, self.defcls = fi.module, fi.cls
         self.inline_stack = stack + [fi.qualname]
         saved_exits, self.exits = self.exits, []
